@@ -50,8 +50,6 @@ Fixpoint smismatches_aux (i : N) (cs : list scase) : list (N * outcome * list (p
   end.
 Definition smismatches (cs : list scase) := smismatches_aux 0%N cs.
 
-(** the class predicates, executable, so that harness and model can be compared on them *)
-Definition single_normalb (r : rel) : bool := match r with [Normal _] => true | _ => false end.
-Definition layer_safeb (l : layer_abs) : bool :=
-  single_normalb (la_dir l) && forallb (λ g, single_normalb (g_path g)) (la_glifs l).
-Definition in_F8 (f : font_abs) : bool := negb (forallb layer_safeb (fa_layers f)).
+(** the class predicate of F8, executable, so that harness and model can be compared on it *)
+Definition in_F8 (f : font_abs) : bool := negb (layers_safeb f).
+Definition f8_bits (cs : list scase) : list N := map (λ c, if in_F8 (sc_font c) then 1%N else 0%N) cs.
